@@ -18,16 +18,24 @@ CFG = """CONSTANTS
   InjSeqs = {%(injseqs)s}
 SPECIFICATION Spec
 INVARIANTS %(invs)s
+%(props)s
 CHECK_DEADLOCK FALSE
 """
 
 ALL_INVS = "TypeOK WindowBound Outstanding AddOnlyWithRoom PrefixDelivery Unwrapped"
 
 
+# GBN.tla refines RelChan.tla (the channel the layers above assume); not
+# claimed when the relay forges acknowledgements (C07 claims WindowBound only)
+REFINES = "PROPERTY RelRefinement"
+
+
 def cfg(n, sc, ss=0, pc=0, ps=0, drop=1, dup=0, rs=1, cap=4, invs=ALL_INVS,
-        inj=0, injseqs=""):
+        inj=0, injseqs="", props=None):
+    if props is None:
+        props = REFINES if inj == 0 else ""
     return dict(n=n, sc=sc, ss=ss, pc=pc, ps=ps, drop=drop, dup=dup, rs=rs,
-                cap=cap, invs=invs, inj=inj, injseqs=injseqs)
+                cap=cap, invs=invs, inj=inj, injseqs=injseqs, props=props)
 
 
 # measured on the 16-core sandbox (distinct states / wall):
